@@ -18,7 +18,7 @@ import HcipyVerif.Model.Coronagraph
 * `msalg N D SRE SIM ERE EIM L (RAWRE RAWIM WINRE WINIM FRE FIM BRE BIM NR (RRE RIM)*NR)*L` → the
   multi-scale algebra at Gaussian rationals: `ok OUTRE OUTIM M0RE M0IM M1RE M1IM …` (`msForward`, `msMasks`)
 * `msalgb …` → the same arguments, `msBackward` (conjugated stop first, conjugated masks)
-* `msteleb N D MRE MIM FRE FIM BRE BIM L ([S] [wre] [wim])*L YRE YIM` → `ok nested= real= equal= [msBackward exactLevels] [idealForward conj(m)]`
+* `msteleb N D MRE MIM FRE FIM BRE BIM L ([S] [wre] [wim])*L YRE YIM` → `ok nested= equal= [msBackward exactLevels] [idealForward conj(m)]`
 * `mstele N D [m] F B L ([S] [w])*L [E]` → `ok nested=0|1 equal=0|1 [msForward exactLevels] [idealForward]`
 * `papply [E]` → `ok [perfectMat T T⁺ c E] pin=powerW pout=powerW`
 * `pmatrix` → `ok row;row;…` the matrix `perfectMatrix T T⁺ c` (`get_transformation_matrix_forward()`)
@@ -208,7 +208,7 @@ def parseSpecsC (d : Nat) : Nat → List String → Option (List (Vector Bool d 
   | _, _ => none
 
 /-- `msteleb N D MRE MIM FRE FIM BRE BIM L ([S] [wre] [wim])*L YRE YIM`: `multiscale_backward_telescopes` at the
-Gaussian rationals (real windows): hypotheses and both sides. -/
+Gaussian rationals (windows real or complex): hypothesis and both sides. -/
 def msTeleB : List String → String
   | n :: d :: mre :: mim :: fre :: fim :: bre :: bim :: l :: rest =>
     match parseNat? n, parseNat? d, parseRatList? mre, parseRatList? mim, parseRatLists? fre, parseRatLists? fim,
@@ -227,7 +227,7 @@ def msTeleB : List String → String
           let y := cvec yre yim n
           let lhs := msBackward CRat.conj (exactLevels mv F B sps) none y
           let rhs := idealForward (Vector.ofFn fun p => CRat.conj mv[p]) F B y
-          s!"ok nested={showBool (nestedOK (onesVec CRat d) sps)} real={showBool (windowsReal CRat.conj sps)} equal={showBool (toList lhs == toList rhs)} {showC lhs} {showC rhs}"
+          s!"ok nested={showBool (nestedOK (onesVec CRat d) sps)} equal={showBool (toList lhs == toList rhs)} {showC lhs} {showC rhs}"
         | _, _ => "bad-op"
       | _ => "bad-op"
     | _, _, _, _, _, _, _, _, _ => "bad-op"
